@@ -274,8 +274,47 @@ func (f Folder) fold(v ssa.Value, depth int) (constant.Value, bool) {
 				}
 			}
 		}
+		return f.foldHelperCall(x, 0, depth)
+	case *ssa.Extract:
+		if call, ok := x.Tuple.(*ssa.Call); ok {
+			return f.foldHelperCall(call, x.Index, depth)
+		}
 	}
 	return nil, false
+}
+
+// foldHelperCall: result #idx of a call of a module function without
+// parameters (a generic instantiation such as width[float32](), or a plain
+// constant-returning helper) whose every live return yields the same constant.
+func (f Folder) foldHelperCall(call *ssa.Call, idx int, depth int) (constant.Value, bool) {
+	callee := call.Call.StaticCallee()
+	if callee == nil || f.P == nil || !f.P.isModuleFunc(callee) || callee.Blocks == nil || len(callee.Params) != 0 || len(call.Call.Args) != 0 || depth > 12 {
+		return nil, false
+	}
+	if idx >= callee.Signature.Results().Len() {
+		return nil, false
+	}
+	for _, b := range callee.Blocks {
+		for _, in := range b.Instrs {
+			switch in.(type) {
+			case *ssa.Store, *ssa.MapUpdate, *ssa.Send, *ssa.Go, *ssa.Defer:
+				return nil, false
+			}
+		}
+	}
+	rets, _ := liveReturns(f.P, callee)
+	var out constant.Value
+	for _, r := range rets {
+		c, ok := f.fold(resolvedResults(r)[idx], depth+1)
+		if !ok {
+			return nil, false
+		}
+		if out != nil && !constant.Compare(out, token.EQL, c) {
+			return nil, false
+		}
+		out = c
+	}
+	return out, out != nil
 }
 
 func hasTypeParam(t types.Type) bool {
@@ -902,4 +941,154 @@ func recordFieldRoles(P *Program) (T *types.Named, offset, codec string) {
 		}
 	}
 	return
+}
+
+// ---------- roles of the bank's and the file writer's fields
+
+type bankRoles struct {
+	ok                           bool
+	types, sData                 string // ResourceBank: the arena table, the string store
+	ptyp, array, cap, len, size  string // the arena entry
+	rb                           string // ReadBuf: its bank
+	entry                        *types.Named
+}
+
+var bankRoleCache = map[*Program]*bankRoles{}
+
+// resourceRoles names the fields of the resource bank by what they are:
+// types/sData by type; within an arena entry, array is the pointer field that
+// receives unsafe_NewArray's result, ptyp the other pointer field, cap the int
+// field that receives that call's count, len the int field that is
+// incremented by one, size the remaining int field.
+func resourceRoles(P *Program) *bankRoles {
+	if r, ok := bankRoleCache[P]; ok {
+		return r
+	}
+	r := &bankRoles{}
+	bankRoleCache[P] = r
+	rbT := P.NamedType(P.Avro, "ResourceBank")
+	rdT := P.NamedType(P.Avro, "ReadBuf")
+	if rbT == nil || rdT == nil {
+		return r
+	}
+	r.rb = uniqueFieldWhere(rdT, func(t types.Type) bool {
+		pt, ok := t.Underlying().(*types.Pointer)
+		return ok && types.Identical(pt.Elem(), rbT)
+	})
+	r.sData = uniqueFieldWhere(rbT, func(t types.Type) bool {
+		sl, ok := t.Underlying().(*types.Slice)
+		return ok && isBasicKind(sl.Elem(), types.Byte)
+	})
+	r.types = uniqueFieldWhere(rbT, func(t types.Type) bool {
+		sl, ok := t.Underlying().(*types.Slice)
+		if !ok {
+			return false
+		}
+		n, isN := types.Unalias(sl.Elem()).(*types.Named)
+		if _, isS := sl.Elem().Underlying().(*types.Struct); isN && isS {
+			r.entry = n
+			return true
+		}
+		return false
+	})
+	if r.entry == nil {
+		return r
+	}
+	isEntryField := func(v ssa.Value) (string, bool) {
+		fa, ok := v.(*ssa.FieldAddr)
+		if !ok {
+			return "", false
+		}
+		pt, ok := fa.X.Type().Underlying().(*types.Pointer)
+		if !ok || !types.Identical(pt.Elem(), r.entry) {
+			return "", false
+		}
+		return fieldName(fa.X.Type(), fa.Field), true
+	}
+	for _, fn := range P.ModuleFuncs() {
+		for _, b := range fn.Blocks {
+			for _, in := range b.Instrs {
+				st, ok := in.(*ssa.Store)
+				if !ok {
+					continue
+				}
+				name, isE := isEntryField(st.Addr)
+				if !isE {
+					continue
+				}
+				if call, ok := st.Val.(*ssa.Call); ok && call.Call.StaticCallee() != nil && call.Call.StaticCallee().Name() == "unsafe_NewArray" {
+					r.array = name
+					// the count handed to the allocator is what is stored as the capacity
+					for _, b2 := range fn.Blocks {
+						for _, in2 := range b2.Instrs {
+							if st2, ok := in2.(*ssa.Store); ok && st2.Val == call.Call.Args[1] {
+								if n2, isE2 := isEntryField(st2.Addr); isE2 {
+									r.cap = n2
+								}
+							}
+						}
+					}
+				}
+				if bo, ok := st.Val.(*ssa.BinOp); ok && bo.Op == token.ADD {
+					if one, isK := constInt(bo.Y); isK && one == 1 {
+						if ld, ok := bo.X.(*ssa.UnOp); ok && ld.Op == token.MUL {
+							if n2, isE2 := isEntryField(ld.X); isE2 && n2 == name {
+								r.len = name
+							}
+						}
+					}
+				}
+			}
+		}
+	}
+	st := r.entry.Underlying().(*types.Struct)
+	for i := 0; i < st.NumFields(); i++ {
+		f := st.Field(i)
+		switch {
+		case isUnsafePointer(f.Type()) && f.Name() != r.array && r.ptyp == "":
+			r.ptyp = f.Name()
+		case isBasicKind(f.Type(), types.Int) && f.Name() != r.cap && f.Name() != r.len && r.size == "":
+			r.size = f.Name()
+		}
+	}
+	r.ok = r.rb != "" && r.sData != "" && r.types != "" && r.array != "" && r.ptyp != "" && r.cap != "" && r.len != "" && r.size != ""
+	return r
+}
+
+type writerRoles struct {
+	ok                                     bool
+	sync, schema, compression, compressor string
+}
+
+// fileWriterRoles: sync is the [16]byte field, schema the []byte field,
+// compression the field of the module's named string type, compressor the
+// field of (module) interface type.
+func fileWriterRoles(P *Program) *writerRoles {
+	r := &writerRoles{}
+	fwT := P.NamedType(P.Avro, "FileWriter")
+	if fwT == nil {
+		return r
+	}
+	r.sync = uniqueFieldWhere(fwT, func(t types.Type) bool {
+		at, ok := t.Underlying().(*types.Array)
+		return ok && at.Len() == 16 && isBasicKind(at.Elem(), types.Byte)
+	})
+	r.schema = uniqueFieldWhere(fwT, func(t types.Type) bool {
+		sl, ok := t.Underlying().(*types.Slice)
+		return ok && isBasicKind(sl.Elem(), types.Byte)
+	})
+	r.compression = uniqueFieldWhere(fwT, func(t types.Type) bool {
+		n, ok := types.Unalias(t).(*types.Named)
+		return ok && n.Obj().Pkg() != nil && P.isModulePkg(n.Obj().Pkg()) && isBasicKind(t, types.String)
+	})
+	r.compressor = uniqueFieldWhere(fwT, func(t types.Type) bool {
+		n, ok := types.Unalias(t).(*types.Named)
+		if !ok || n.Obj().Pkg() == nil || !P.isModulePkg(n.Obj().Pkg()) {
+			return false
+		}
+		_, isI := t.Underlying().(*types.Interface)
+		return isI
+	})
+	r.ok = r.sync != "" && r.schema != "" && r.compression != "" && r.compressor != ""
+	return r
 }
